@@ -67,6 +67,7 @@ class B:
         self.dtype = dtype
         self.cplx = dtype.startswith("complex")
         self.rng = np.random.RandomState(seed % (2**31))
+        self.regime = None
 
     def raw(self, shape, nonneg=False, lo=0.2):
         shape = tuple(shape)
@@ -75,7 +76,7 @@ class B:
             a = a + 1j * self.rng.standard_normal(shape)
         return np.ascontiguousarray(a.astype(self.dtype))
 
-    def arr(self, shape, kind="fresh", nonneg=False):
+    def _make(self, shape, kind="fresh", nonneg=False):
         shape = tuple(shape)
         kind = kind.split("@")[0]
         if kind == "tview" and len(shape) >= 2:
@@ -84,6 +85,35 @@ class B:
             big = self.raw((shape[0] + 2,) + tuple(2 * s for s in shape[1:]), nonneg)
             return big[(slice(1, -1),) + tuple(slice(None, None, 2) for _ in shape[1:])]
         return self.raw(shape, nonneg)
+
+    def arr(self, shape, kind="fresh", nonneg=False):
+        return self.apply_regime(self._make(shape, kind, nonneg), nonneg)
+
+    def apply_regime(self, a, nonneg=False):
+        """Value regimes (REGIMES): rewrite the data array in place so that data-dependent branches of the
+        library are taken (vanishing / zero columns, tiny or huge magnitudes, all-zero data, ties)."""
+        r = self.regime
+        if r is None or a.size == 0:
+            return a
+        single = self.dtype == "float32"
+        last = (Ellipsis, -1)
+        if r == "tiny":
+            a *= 1e-18
+        elif r == "huge":
+            a *= 1e8 if single else 1e15
+        elif r == "zero":
+            a[...] = 0
+        elif r == "zerocol":
+            a[last] = 0
+        elif r == "zerorow":
+            a[0] = 0
+        elif r == "badcol":          # one column almost vanished
+            a[last] *= 1e-5 if single else 1e-9
+        elif r == "badcol2":
+            a[last] *= 1e-7 if single else 1e-12
+        elif r == "ties":            # few distinct values, many exact ties
+            a[...] = np.ceil(a.real) if nonneg else np.rint(a.real)
+        return a
 
     def mask(self, shape, kind="fresh"):
         m = np.ones(shape, dtype=self.dtype)
@@ -168,12 +198,14 @@ class B:
     def lowrank(self, shape, rank, kind="fresh", nonneg=False, noise=0.05):
         """A tensor of the requested kind whose values are rank-`rank` plus a little noise."""
         import tensorly as tl
+        if self.regime == "overrank":       # exactly rank one: every requested rank is above the exact rank
+            rank, noise = 1, 0.0
         fs = [self.raw((s, rank), nonneg) for s in shape]
         full = tl.cp_to_tensor((None, fs))
         full = full + noise * self.raw(shape, nonneg)
-        out = self.arr(shape, kind, nonneg)
+        out = self._make(shape, kind, nonneg)
         out[...] = full
-        return out
+        return self.apply_regime(out, nonneg)
 
 
 SHAPE = (3, 4, 2)
@@ -201,7 +233,33 @@ from . import lib_entries_decomp       # noqa: E402,F401  (registers decompositi
 
 
 # ----------------------------------------------------------------------------- enumeration
-def cases(dtypes=FLOATS, groups=None, entries=None):
+# value regimes: additional kinds "<kind>~<regime>" for the entries whose code has data-dependent branches
+REGIMES = ("tiny", "huge", "zero", "zerocol", "zerorow", "badcol", "badcol2", "ties", "overrank")
+REGIME_GROUPS = ("decomposition", "contrib", "solvers", "proximal", "tenalg", "metrics", "regression", "preprocessing",
+                 "cp_tensor", "tucker_tensor", "parafac2_tensor")
+# kinds (besides the first one) that also run under every regime: the solvers' caller-supplied start points
+REGIME_EXTRA_KINDS = {"solvers.hals_nnls": ("V_fresh",), "solvers.fista": ("x_fresh",), "solvers.active_set_nnls": ("x_fresh",),
+                      "decomposition.parafac": ("init_tuple",), "decomposition.non_negative_parafac_hals": ("init_tuple",),
+                      "decomposition.non_negative_tucker_hals": ("active_set",)}
+# (entry, regime) pairs left out because the library does not terminate in reasonable time on them
+REGIME_SKIP = set()
+
+
+def regime_kinds(e):
+    out = []
+    if e.group not in REGIME_GROUPS:
+        return out
+    for kind in (e.kinds[0],) + REGIME_EXTRA_KINDS.get(e.name, ()):
+        for r in REGIMES:
+            if r == "overrank" and e.group not in ("decomposition", "contrib"):
+                continue
+            if (e.name, r) in REGIME_SKIP:
+                continue
+            out.append("%s~%s" % (kind, r))
+    return out
+
+
+def cases(dtypes=FLOATS, groups=None, entries=None, regimes=True):
     out = []
     for name in sorted(ENTRIES):
         e = ENTRIES[name]
@@ -209,7 +267,7 @@ def cases(dtypes=FLOATS, groups=None, entries=None):
             continue
         if entries and name not in entries:
             continue
-        for kind in e.kinds:
+        for kind in e.kinds + (tuple(regime_kinds(e)) if regimes else ()):
             for dt in dtypes:
                 if dt in e.dtypes:
                     out.append({"id": "%s/%s/%s" % (name, kind, dt), "entry": name, "kind": kind, "dtype": dt})
@@ -224,9 +282,35 @@ def case_seed(case, seed):
 def build(case, seed=0):
     e = ENTRIES[case["entry"]]
     b = B(case["dtype"], case_seed(case, seed))
-    c = e.build(b, case["kind"])
-    c.tenalg = "einsum" if case["kind"].endswith("@einsum") else ("core" if e.tenalg else None)
+    kind, _, regime = case["kind"].partition("~")
+    b.regime = regime or None
+    c = e.build(b, kind)
+    c.tenalg = "einsum" if kind.endswith("@einsum") else ("core" if e.tenalg else None)
     return e, c
+
+
+@contextlib.contextmanager
+def _quiet_fds():
+    """Silence C-level writes to stdout / stderr (LAPACK error handler on NaN / inf input) during the call."""
+    import os
+    import sys
+    try:
+        sys.stdout.flush()
+        sys.stderr.flush()
+        saved = [os.dup(1), os.dup(2)]
+        null = os.open(os.devnull, os.O_WRONLY)
+    except OSError:
+        yield
+        return
+    try:
+        os.dup2(null, 1)
+        os.dup2(null, 2)
+        yield
+    finally:
+        os.dup2(saved[0], 1)
+        os.dup2(saved[1], 2)
+        for fd in saved + [null]:
+            os.close(fd)
 
 
 def invoke(c):
@@ -242,7 +326,7 @@ def invoke(c):
             warnings.simplefilter("ignore")
             old = np.seterr(all="ignore")
             try:
-                with contextlib.redirect_stdout(io.StringIO()):      # tucker_mode_dot & co print
+                with contextlib.redirect_stdout(io.StringIO()), _quiet_fds():    # tucker_mode_dot & co print; LAPACK's xerbla too
                     return "return", c.fn(*c.args, **c.kwargs)
             finally:
                 np.seterr(**old)
